@@ -118,10 +118,12 @@ func lit(v *big.Int, t numType) string {
 func digestExpr(t numType, e string) string {
 	switch t.Kind {
 	case "int":
+		// the conversion to float64 exposes a JavaScript -0 in an integer result (and any
+		// other non-integral representation), which the integer conversions hide
 		if t.Signed {
-			return "s64(int64(" + e + "))"
+			return "(s64(int64(" + e + "))^f64key(float64(" + e + "))*0x9E3779B97F4A7C15)"
 		}
-		return "uint64(" + e + ")"
+		return "(uint64(" + e + ")^f64key(float64(" + e + "))*0x9E3779B97F4A7C15)"
 	case "float":
 		if t.Bits == 32 {
 			// the widened value exposes results that were never rounded to single precision
